@@ -245,3 +245,29 @@ also("C16", "Also: every Ok path of Header::new established type_count != 0, cha
             "cursor empty after the last cursor-advancing call.")
 also("C17", "Also: TimestampExceedsLimit is reported only as the ok_or of timestamp_nanos_opt().")
 also("C18", "Also: a TZ value is read as a POSIX rule only after the zone-file lookup was tried for it, on every path.")
+
+# ---- region-representative value maps (term folding on boundary arguments; DESIGN 11.2) and the rules after the sixth round ----------------
+VM = "term folding on region representatives (value maps; evaluation on boundary arguments, not a proof for all inputs)"
+also("C02", "Also (value map): from_timestamp / _millis / _micros / _nanos and all timestamp accessors folded on both sides of every day / second / unit / leap-box / range boundary, and the SystemTime "
+            "conversions in both directions with the std calls symbolic, equal the calendar oracle.", VM)
+also("C03", "Also (value map): add_days, checked_add/sub_days, checked_add/sub_signed and signed_duration_since of NaiveDate folded for one year per year class, the common years divisible by 4 and both "
+            "range ends with day counts on both sides of every piece boundary equal day-number arithmetic.", VM)
+also("C05", "Also (value map): RuleDay::unix_time for every Mm.w.d / Jn / n rule day per year class; AlternateTime::find_local_time_type and ::find_local_time_type_from_local for a family of nine rules "
+            "(both hemispheres, negative DST, Julian forms, negative and > 24 h times) on both sides of every transition, gap and fold boundary equal the calendar oracle (year of the instant supplied by the oracle).", VM)
+also("C06", "Also (value map): checked_add/sub/mul/div, abs, neg, new, every unit constructor and accessor folded on all region boundaries of (secs, nanos) equal exact integer arithmetic; new piece boundaries are reported.", VM)
+also("C07", "Also (value map): overflowing_add_signed / overflowing_sub_signed / signed_duration_since for ordinary and leap-second operands on all region boundaries equal the documented time-line rule.", VM)
+also("C08", "Also (value map): with_year / _month(0) / _day(0) / _ordinal(0), years_since and from_weekday_of_month_opt on all region boundaries equal the calendar oracle.", VM)
+also("C14", "Also (value map): to_naive_date for every documented sufficient combination x year form, alone, with each further field consistent / contradicting / removed; to_naive_time over its presence "
+            "patterns; to_naive_datetime_with_offset with complete fields and a timestamp that is consistent (incl. both readings of second 60) or off by 1 s, 2 s, a minute, a day.", VM)
+also("C17", "Also (value map): duration_round / _trunc / _round_up (generic helpers, the receiver's + and - symbolic) and round_subsecs / trunc_subsecs on every residue boundary in both signs for 14 spans and "
+            "digit counts 0..=10, and the failure classes, equal floor / ceiling / nearest-ties-up in exact integers; the Display text of each RoundingError names its own subject.", VM)
+also("C01", "Also: IsoWeek::year / week / week0 as a complete finite map over week 1..=53 x flags.")
+also("C09", "Also: write_hundreds(n) writes the two decimal digits of n for every n in 0..=99 (computed or table idiom) and refuses n >= 100; the fraction scale tables of the scanners cell by cell.")
+also("C10", "Also: the fraction scale tables 10^(9-k); in write_rfc3339 every fraction printed or tested on a path derives from the one leap-reduced nanosecond() value; format_fixed hands the RFC 3339 / 2822 writers the "
+            "bound date and time unmodified.")
+also("C11", "Also: every accepting path of parse_rfc2822 passes scan::space exactly four times; format_fixed hands write_rfc2822 the bound date and time unmodified.")
+also("C12", "Also: the six format templates of write_n as siblings (always-sign = plain + one sign flag for every padding; the paddings differ).")
+also("C13", "Also: parse_from_str and parse_and_remainder of each type resolve through the same Parsed resolver; the fraction scale tables.")
+also("C16", "Also: parse_offset / parse_rule_time / parse_rule_time_extended weigh the scanned (hour, minute, second) with 3600 / 60 / 1 in that order.")
+also("C18", "Also: TimeZone::from_file reads its File argument to the end without a limiting adapter; Source::new hashes the bytes of the unmodified TZ value.")
+also("C20", "Also: every string-serialized type requests deserialize_str; no ts_*_option visit_some swallows the inner error.")
